@@ -221,4 +221,29 @@ def readStoredEntry (password : Option Bytes) (encrypted usingDataDescriptor : B
   | .err e => .err e
   | .panic s => .panic s
 
+/-- Opening an entry of ANY method and reading it to the end.  The decoder is a parameter (`decode`:
+flate2 / bzip2 / zstd applied to the whole decrypted stream; `Out.ok` for Stored): read.rs stacks
+`Crc32Reader(decoder(CryptoReader(Take)))`, so the decoder sits between the decryption layer and the
+CRC gate, and its error (corrupt stream under a wrong password that passed the check byte) is the
+read's error. `ok none` = `InvalidPassword`. -/
+def readEntry (decode : Bytes → Out Bytes) (password : Option Bytes)
+    (encrypted usingDataDescriptor : Bool) (crc : UInt32) (timepart : UInt16) (raw : Bytes) :
+    Out (Option Bytes) :=
+  match openEntry password encrypted usingDataDescriptor crc timepart raw with
+  | .ok (.plaintext d) => some <$> (decode d >>= crcCheckedRead crc)
+  | .ok (.zipCrypto r) => some <$> (decode r.readAll >>= crcCheckedRead crc)
+  | .ok .invalidPassword => .ok none
+  | .err e => .err e
+  | .panic s => .panic s
+
+/-- `by_index` / `by_name` (no password) followed by a read to the end. -/
+def readEntryNoPassword (decode : Bytes → Out Bytes) (encrypted usingDataDescriptor : Bool) (crc : UInt32)
+    (timepart : UInt16) (raw : Bytes) : Out (Option Bytes) :=
+  match byIndex encrypted usingDataDescriptor crc timepart raw with
+  | .ok (.plaintext d) => some <$> (decode d >>= crcCheckedRead crc)
+  | .ok (.zipCrypto r) => some <$> (decode r.readAll >>= crcCheckedRead crc)
+  | .ok .invalidPassword => .ok none
+  | .err e => .err e
+  | .panic s => .panic s
+
 end ZipVerif.Model.ZipCrypto
